@@ -551,6 +551,7 @@ proposers sequenced something, or leadership changed and something was sequenced
 replay of a case re-runs the same scheduler decisions but is not guaranteed bit-identical.";
 
 pub fn run() {
+    println!();
     let args = Args::from_env();
     if args.prop == "NONE" {
         return;
